@@ -88,6 +88,7 @@ struct Thread {
 	const char *why = "";
 	int node = 0;
 	int64_t prio = 0;
+	int exit_round = 0;
 };
 
 static std::vector<Thread*> threads;
@@ -317,8 +318,18 @@ struct SimState : std::thread::_State { StatePtr inner; simk::Thread *t;
 	void _M_run() override {
 		simk::self=t; simk::park(t);
 		inner->_M_run();
-		{ IGN; inner.reset(); t->st=simk::Thread::DONE; simk::schedule(); simk::self=nullptr; }
-	} };
+		{ IGN; inner.reset(); }
+		// The thread stays a scheduled sim thread while its thread-specific data is destroyed (booster::thread_specific_ptr
+		// destructors close sockets): it is marked DONE only by our own key destructor, in the round after all others ran.
+		pthread_once(&exit_once,make_exit_key); t->exit_round=0; pthread_setspecific(exit_key,t);
+	}
+	static pthread_key_t exit_key; static pthread_once_t exit_once;
+	static void make_exit_key(){ pthread_key_create(&exit_key,on_thread_exit); }
+	static void on_thread_exit(void *p){ simk::Thread *t=(simk::Thread*)p;
+		if(t->exit_round++ == 0){ pthread_setspecific(exit_key,t); return; }     // let every other destructor of this round run first
+		IGN; t->st=simk::Thread::DONE; simk::schedule(); simk::self=nullptr; }
+};
+pthread_key_t SimState::exit_key; pthread_once_t SimState::exit_once = PTHREAD_ONCE_INIT;
 }
 extern "C" void __wrap__ZNSt6thread15_M_start_threadESt10unique_ptrINS_6_StateESt14default_deleteIS1_EEPFvvE(std::thread*th,StatePtr*st,void(*f)()){
 	if(!in_sim()){ __real__ZNSt6thread15_M_start_threadESt10unique_ptrINS_6_StateESt14default_deleteIS1_EEPFvvE(th,st,f); return; }
@@ -403,6 +414,7 @@ static int newfd(std::shared_ptr<Obj> o){
 }
 static void fd_reset(){ for(size_t i=0;i<fdtab.size();i++) if(fdtab[i]){ __real_close((int)i); fdtab[i].reset(); } listeners.clear(); }
 int open_sim_fds(){ int n=0; for(auto&o:fdtab) if(o) n++; return n; }
+bool reset_accepted_stream(uint64_t pick){ std::vector<Obj*> v; for(auto&o:fdtab) if(o&&o->accepted&&o->kind==Obj::STREAM&&!*o->reset) v.push_back(o.get()); if(v.empty()) return false; Obj*o=v[pick%v.size()]; *o->reset=true; trace_mix(0xEE5E7); tracef("fault: connection reset injected"); return true; }
 int open_accepted_fds(){ int n=0; for(auto&o:fdtab) if(o&&o->accepted) n++; return n; }
 std::string describe_fds(){
 	std::string r; char b[256];
